@@ -166,6 +166,9 @@ def extras(ctx, info, rng, *rest):
     cov.update(bulk_ready(ctx, info, rng))
     cov.update(other_store_visibility(ctx, info, rng))
     cov.update(schedule_horizon(ctx, info, rng))
+    # another process holds the write lock when the gateway polls: the refused dequeue must not cost the gateway its store
+    from lib import twostores
+    cov.update(twostores.run_busy(ctx, info))
     return cov
 
 
